@@ -4,6 +4,8 @@ Line:  id|oracle|Cxx|<kind>|<args…>|=>|<go result>   ->   id|ok   id|skip:<why
 -/
 import Driver.Eval
 import Driver.SpecWalk
+import Driver.LayoutOracle
+import Driver.BOracle
 import RosedVerif.Gem.Ref13
 namespace RosedVerif.Driver
 open RosedVerif
@@ -74,6 +76,13 @@ def oracleLine (pid kind : String) (args : List String) (go : String) : String :
   | "C09", "prog", [steps] => walk ["insert", "delete", "overtype"] steps go
   | "C10", "prog", [steps] =>
     walk ["lines", "linesfrom", "linesto", "linecount", "apply", "commit", "string"] steps go
+  | "C06", "prog", [steps] | "C07", "prog", [steps] | "C12", "prog", [steps] | "C13", "prog", [steps] =>
+    walkLayout pid steps go
+  | "C14", "prog", [steps] => walkComposite pid "twocol" steps go
+  | "C15", "prog", [steps] => walkComposite pid "deftable" steps go
+  | "C16", "prog", [steps] => walkComposite pid "table" steps go
+  | "C08", "pool", [steps] => poolVerdict steps go
+  | "C18", _, _ => totalityVerdict go
   | _, _, _ => "skip:no-oracle"
 
 end RosedVerif.Driver
